@@ -66,7 +66,7 @@ CLAIMS = {
             "from the source on every run) equals the coordinate ray walk for every square and every occupancy (no bound), and "
             "every index stays inside the table; the set-wise knight / king / pawn attack functions equal the union of per-square "
             "geometry for every bitboard below 2^64 (linearity + 64 finite facts each) and the per-square tables equal geometry. "
-            "Only the eight ray-fill helpers of rays.rs are compared (random occupancies vs geometry) rather than proved.", "DESIGN.md section 6 C10", ""),
+            "The eight ray-fill helpers of rays.rs equal the coordinate walk for every square and blocker board (locality + finite sweep).", "DESIGN.md section 6 C10", ""),
     "C13": ("proof", "Coq proof by induction on fuel (history preserved through negamax and the root loop) + repeated real searches",
             "Proof on the model: every search that returns gives back the history it was given (any limit, window, table), the position is "
             "passed by value, and the model is a function of its inputs. That the Rust has no hidden input is measured: state snapshots and "
